@@ -17,7 +17,7 @@ import (
 
 func init() { extractors = append(extractors, extractC18) }
 
-func src(n ast.Node) string {
+func src18(n ast.Node) string {
 	var b bytes.Buffer
 	_ = printer.Fprint(&b, fset, n)
 	return strings.Join(strings.Fields(b.String()), " ")
@@ -77,7 +77,7 @@ func switchTable(sw *ast.SwitchStmt, where string) (rows []string, defErr bool) 
 		cc := st.(*ast.CaseClause)
 		body := ""
 		for _, s := range cc.Body {
-			body += src(s) + " ; "
+			body += src18(s) + " ; "
 		}
 		if cc.List == nil {
 			hasDefault = true
@@ -88,7 +88,7 @@ func switchTable(sw *ast.SwitchStmt, where string) (rows []string, defErr bool) 
 		for _, e := range cc.List {
 			lit, ok := e.(*ast.BasicLit)
 			if !ok || lit.Kind != token.STRING {
-				fail("%s: non-literal case %s", where, src(e))
+				fail("%s: non-literal case %s", where, src18(e))
 				continue
 			}
 			s, _ := strconv.Unquote(lit.Value)
@@ -171,7 +171,7 @@ type tlsBranch struct {
 var watchCalls = []string{"tls.Listen", "net.Listen", "tls.Dial", "net.Dial", "tls.Client", "tls.Server", "ServeTLS", "Serve"}
 
 func normCond(e ast.Expr) string {
-	s := src(e)
+	s := src18(e)
 	if m := regexp.MustCompile(`^strings\.HasSuffix\([A-Za-z.]+\.Scheme, "([^"]*)"\)$`).FindStringSubmatch(s); m != nil {
 		return "HasSuffix:" + m[1]
 	}
@@ -196,7 +196,7 @@ func normCond(e ast.Expr) string {
 
 func summariseBody(body *ast.BlockStmt) (secure string, actions, calls []string) {
 	for _, st := range body.List {
-		s := src(st)
+		s := src18(st)
 		if m := regexp.MustCompile(`^(?:[a-z]+\.)?secure = (true|false)$`).FindStringSubmatch(s); m != nil {
 			secure = m[1]
 			continue
@@ -224,7 +224,7 @@ func summariseBody(body *ast.BlockStmt) (secure string, actions, calls []string)
 	}
 	ast.Inspect(body, func(n ast.Node) bool {
 		if c, ok := n.(*ast.CallExpr); ok {
-			name := src(c.Fun)
+			name := src18(c.Fun)
 			for _, w := range watchCalls {
 				if name == w || strings.HasSuffix(name, "."+w) && (w == "ServeTLS" || w == "Serve") {
 					calls = append(calls, w)
@@ -335,7 +335,7 @@ func extractC18(o *out) {
 		emitTable(b, "listenerSchemes", "internal/client/listener/listener.go Listeners.UnmarshalFlag, name~listen~forward branch: scheme → listener type", sw[1], "Listeners.UnmarshalFlag/~")
 	}
 	if lf != nil {
-		body := src(lf.Body)
+		body := src18(lf.Body)
 		fmt.Fprintf(b, "/-- the listener spec is split on this separator; parts[0] is the channel name, parts[1] the listen URL, parts[2] (optional) the forward URL -/\n")
 		m := regexp.MustCompile(`strings\.Split\(data, "([^"]*)"\)`).FindStringSubmatch(body)
 		if m == nil {
@@ -377,7 +377,7 @@ func extractC18(o *out) {
 	if cf == nil {
 		fail("Channels.UnmarshalFlag not found")
 	} else {
-		body := src(cf.Body)
+		body := src18(cf.Body)
 		via := strings.Contains(body, "unmarshalChannel(")
 		nm := regexp.MustCompile(`(?:"name"|Name): parts\[(\d+)\]`).FindStringSubmatch(body)
 		a1 := regexp.MustCompile(`"address": parts\[(\d+)\] \+ "://" \+ strings\.TrimPrefix\(parts\[(\d+)\], "//"\)`).FindStringSubmatch(body)
@@ -409,12 +409,12 @@ func extractC18(o *out) {
 			if !ok {
 				return true
 			}
-			c := src(is.Cond)
-			if c == "address == nil" && is.Pos() < swPos && strings.Contains(src(is.Body), "return nil, errors.") {
+			c := src18(is.Cond)
+			if c == "address == nil" && is.Pos() < swPos && strings.Contains(src18(is.Body), "return nil, errors.") {
 				nilGuard = true
 			}
-			if strings.HasPrefix(src(is), "if k, ok := val.(string); ok") {
-				if e, ok := is.Else.(*ast.BlockStmt); ok && strings.Contains(src(e), "return nil, errors.") {
+			if strings.HasPrefix(src18(is), "if k, ok := val.(string); ok") {
+				if e, ok := is.Else.(*ast.BlockStmt); ok && strings.Contains(src18(e), "return nil, errors.") {
 					elseGuard = true
 				}
 			}
@@ -452,7 +452,7 @@ func extractC18(o *out) {
 	emitChain(b, "stdioConnectTls", "client/upstream/input_output.go InputOutput.Connect: secure flag and TLS client", ifChain(findFunc(ui, "InputOutput", "Connect"), "HasTls", "InputOutput.Connect"))
 	ud := parse("internal/client/upstream/dns.go")
 	if fn := findFunc(ud, "Dns", "Connect"); fn != nil {
-		m := regexp.MustCompile(`if ups\.Address\.Scheme != "([^"]*)" \{ return errors\.Errorf`).FindStringSubmatch(src(fn.Body))
+		m := regexp.MustCompile(`if ups\.Address\.Scheme != "([^"]*)" \{ return errors\.Errorf`).FindStringSubmatch(src18(fn.Body))
 		if m == nil {
 			fail("Dns.Connect: scheme guard not recognised")
 		} else {
